@@ -90,6 +90,12 @@ Definition json_notes (d : db) (cat name : string) : jnotes :=
 (* ---- displayed name: size suffixes of output_algorithm ---- *)
 (* zstr_digit, z_digits, z_to_string: see Base.v (shared with the generated kernels of gen/Tables.v) *)
 
+(* output_algorithm (fix 331ebe3): the name shown in the text report has every non-printable character replaced by '?'.  Exact for ASCII (Python's
+   str.isprintable: 0x20..0x7e); bytes >= 0x80 are kept as they are - Python judges the decoded code point there, which the byte-level model does not follow *)
+Definition display_char (c : ascii) : ascii :=
+  let n := nat_of_ascii c in if Nat.ltb n 32 || Nat.eqb n 127 then "?"%char else c.
+Definition display (s : string) : string := of_chars (map display_char (chars s)).
+
 Record hostkey_info := { hk_size : Z; hk_ca_type : string; hk_ca_size : Z }.
 
 Definition shown_name (cat name : string) (hostkeys : list (string * hostkey_info)) (dh : list (string * Z)) : string :=
